@@ -26,13 +26,34 @@ func tm(t time.Time) string {
 
 func u64s(xs []uint64) string { return vh.NList(xs) }
 
+// str renders a Go string as bytes: the name of the regenerated constant when it is one of
+// the enum / reason strings of Gen/Consts_C18.v, (rp n b rest) for a long run of one byte, hex otherwise.
+func str(s string) string {
+	if s == "" {
+		return "[]"
+	}
+	if n, ok := constName[s]; ok {
+		return n
+	}
+	if len(s) >= 24 {
+		k := 1
+		for k < len(s) && s[k] == s[0] {
+			k++
+		}
+		if k >= 16 {
+			return vh.App("rp", vh.N(uint64(k)), vh.N(uint64(s[0])), str(s[k:]))
+		}
+	}
+	return vh.HexS(s)
+}
+
 func coqNode(n state.Node) string {
-	roles := vh.ListOf(n.Roles, func(r state.NodeRole) string { return vh.HexS(string(r)) })
-	return vh.App("Nd", vh.N(n.NodeID), vh.HexS(n.Name), vh.HexS(n.Addr), roles, vh.HexS(string(n.JoinState)), vh.HexS(string(n.Status)), vh.N(uint64(n.CapacityWeight)))
+	roles := vh.ListOf(n.Roles, func(r state.NodeRole) string { return str(string(r)) })
+	return vh.App("Nd", vh.N(n.NodeID), str(n.Name), str(n.Addr), roles, str(string(n.JoinState)), str(string(n.Status)), vh.N(uint64(n.CapacityWeight)))
 }
 
 func coqVoter(c state.ControllerVoter) string {
-	return vh.App("CV", vh.N(c.NodeID), vh.HexS(c.Addr), vh.HexS(string(c.Role)))
+	return vh.App("CV", vh.N(c.NodeID), str(c.Addr), str(string(c.Role)))
 }
 
 func coqAssign(a state.SlotAssignment) string {
@@ -48,17 +69,17 @@ func coqTable(t state.HashSlotTable) string {
 
 func coqTask(t state.ReconcileTask) string {
 	pp := vh.ListOf(t.ParticipantProgress, func(p state.TaskParticipantProgress) string {
-		return vh.App("PP", vh.N(p.NodeID), vh.N(uint64(p.Attempt)), vh.HexS(string(p.Status)), vh.HexS(p.LastError))
+		return vh.App("PP", vh.N(p.NodeID), vh.N(uint64(p.Attempt)), str(string(p.Status)), str(p.LastError))
 	})
-	return vh.App("TK", vh.HexS(t.TaskID), vh.N(uint64(t.SlotID)), vh.HexS(string(t.Kind)), vh.HexS(string(t.Step)),
-		vh.N(t.SourceNode), vh.N(t.TargetNode), u64s(t.TargetPeers), vh.HexS(string(t.CompletionPolicy)), pp,
-		vh.N(t.ConfigEpoch), vh.N(uint64(t.Attempt)), vh.HexS(string(t.Status)), vh.HexS(t.LastError),
+	return vh.App("TK", str(t.TaskID), vh.N(uint64(t.SlotID)), str(string(t.Kind)), str(string(t.Step)),
+		vh.N(t.SourceNode), vh.N(t.TargetNode), u64s(t.TargetPeers), str(string(t.CompletionPolicy)), pp,
+		vh.N(t.ConfigEpoch), vh.N(uint64(t.Attempt)), str(string(t.Status)), str(t.LastError),
 		vh.N(uint64(t.PhaseIndex)), vh.N(t.ObservedConfigIndex), u64s(t.ObservedVoters), u64s(t.ObservedLearners))
 }
 
 func coqHealth(h state.NodeHealthReport) string {
-	return vh.App("HRp", vh.N(h.NodeID), vh.HexS(string(h.Status)), vh.B(h.RuntimeReady), vh.N(h.ObservedControlRevision),
-		vh.N(h.ObservedSlotRevision), vh.N(h.ReportSeq), vh.Z(h.ReportedAtUnixMilli), vh.N(h.AppliedRaftIndex), vh.HexS(h.ErrorCode))
+	return vh.App("HRp", vh.N(h.NodeID), str(string(h.Status)), vh.B(h.RuntimeReady), vh.N(h.ObservedControlRevision),
+		vh.N(h.ObservedSlotRevision), vh.N(h.ReportSeq), vh.Z(h.ReportedAtUnixMilli), vh.N(h.AppliedRaftIndex), str(h.ErrorCode))
 }
 
 func coqConfig(c state.ClusterConfig) string {
@@ -113,10 +134,10 @@ func (t *tables) coqOps(o *state.OpsMCPState) string {
 }
 
 func (t *tables) coqState(s state.ClusterState) string {
-	return vh.App("CS", vh.N(uint64(s.SchemaVersion)), vh.HexS(s.ClusterID), vh.N(s.Revision), vh.N(s.AppliedRaftIndex), tm(s.UpdatedAt),
+	return vh.App("CS", vh.N(uint64(s.SchemaVersion)), str(s.ClusterID), vh.N(s.Revision), vh.N(s.AppliedRaftIndex), tm(s.UpdatedAt),
 		coqConfig(s.Config), vh.ListOf(s.Controllers, coqVoter), vh.ListOf(s.Nodes, coqNode), vh.ListOf(s.Slots, coqAssign),
 		vh.ListOf(s.NodeHealthReports, coqHealth), coqTable(s.HashSlots), vh.ListOf(s.Tasks, coqTask),
-		t.coqSB(s.ScheduledBackup), t.coqOps(s.OpsMCP), vh.HexS(s.Checksum))
+		t.coqSB(s.ScheduledBackup), t.coqOps(s.OpsMCP), str(s.Checksum))
 }
 
 func opt(present bool, s func() string) string {
@@ -154,7 +175,7 @@ func (t *tables) coqCommand(c command.Command) string {
 		exp = vh.Some(vh.N(*c.ExpectedRevision))
 	}
 	initS := opt(c.Init != nil, func() string {
-		return vh.App("IC", vh.HexS(c.Init.ClusterID), coqConfig(c.Init.Config), vh.ListOf(c.Init.Controllers, coqVoter), vh.ListOf(c.Init.Nodes, coqNode))
+		return vh.App("IC", str(c.Init.ClusterID), coqConfig(c.Init.Config), vh.ListOf(c.Init.Controllers, coqVoter), vh.ListOf(c.Init.Nodes, coqNode))
 	})
 	node := opt(c.Node != nil, func() string { return coqNode(*c.Node) })
 	promo := opt(c.ControllerVoterPromotion != nil, func() string {
@@ -163,30 +184,30 @@ func (t *tables) coqCommand(c command.Command) string {
 		if p.ExpectedPreviousVoters != nil {
 			prev = vh.Some(u64s(p.ExpectedPreviousVoters))
 		}
-		return vh.App("PR", vh.N(p.TargetNodeID), vh.HexS(p.TargetAddr), prev, vh.N(p.ObservedConfigIndex), u64s(p.ObservedVoters))
+		return vh.App("PR", vh.N(p.TargetNodeID), str(p.TargetAddr), prev, vh.N(p.ObservedConfigIndex), u64s(p.ObservedVoters))
 	})
 	assign := opt(c.Assignment != nil, func() string { return coqAssign(*c.Assignment) })
 	task := opt(c.Task != nil, func() string { return coqTask(*c.Task) })
 	phase := opt(c.SlotReplicaMovePhase != nil, func() string {
 		p := c.SlotReplicaMovePhase
-		return vh.App("PH", vh.HexS(p.TaskID), vh.N(uint64(p.SlotID)), vh.N(p.ConfigEpoch), vh.N(uint64(p.Attempt)), vh.N(uint64(p.ExpectedPhaseIndex)),
-			vh.HexS(string(p.NextStep)), vh.N(p.ObservedConfigIndex), u64s(p.ObservedVoters), u64s(p.ObservedLearners))
+		return vh.App("PH", str(p.TaskID), vh.N(uint64(p.SlotID)), vh.N(p.ConfigEpoch), vh.N(uint64(p.Attempt)), vh.N(uint64(p.ExpectedPhaseIndex)),
+			str(string(p.NextStep)), vh.N(p.ObservedConfigIndex), u64s(p.ObservedVoters), u64s(p.ObservedLearners))
 	})
 	commit := opt(c.SlotReplicaMoveCommit != nil, func() string {
 		p := c.SlotReplicaMoveCommit
-		return vh.App("CM", vh.HexS(p.TaskID), vh.N(uint64(p.SlotID)), vh.N(p.ConfigEpoch), vh.N(uint64(p.Attempt)), vh.N(p.ObservedConfigIndex), u64s(p.ObservedVoters))
+		return vh.App("CM", str(p.TaskID), vh.N(uint64(p.SlotID)), vh.N(p.ConfigEpoch), vh.N(uint64(p.Attempt)), vh.N(p.ObservedConfigIndex), u64s(p.ObservedVoters))
 	})
 	result := opt(c.TaskResult != nil, func() string {
 		p := c.TaskResult
-		return vh.App("TR", vh.HexS(p.TaskID), vh.N(uint64(p.SlotID)), vh.HexS(string(p.TaskKind)), vh.N(p.ConfigEpoch), vh.N(uint64(p.Attempt)), vh.HexS(p.Err))
+		return vh.App("TR", str(p.TaskID), vh.N(uint64(p.SlotID)), str(string(p.TaskKind)), vh.N(p.ConfigEpoch), vh.N(uint64(p.Attempt)), str(p.Err))
 	})
 	progress := opt(c.TaskProgress != nil, func() string {
 		p := c.TaskProgress
-		return vh.App("TP", vh.HexS(p.TaskID), vh.N(uint64(p.SlotID)), vh.HexS(string(p.TaskKind)), vh.N(p.ConfigEpoch), vh.N(uint64(p.TaskAttempt)),
-			vh.N(p.ParticipantNodeID), vh.N(uint64(p.ParticipantAttempt)), vh.HexS(string(p.Status)), vh.HexS(p.Err))
+		return vh.App("TP", str(p.TaskID), vh.N(uint64(p.SlotID)), str(string(p.TaskKind)), vh.N(p.ConfigEpoch), vh.N(uint64(p.TaskAttempt)),
+			vh.N(p.ParticipantNodeID), vh.N(uint64(p.ParticipantAttempt)), str(string(p.Status)), str(p.Err))
 	})
 	health := opt(c.NodeHealth != nil, func() string { return coqHealth(*c.NodeHealth) })
 	hs := opt(c.HashSlots != nil, func() string { return coqTable(*c.HashSlots) })
-	return vh.App("Cmd", vh.HexS(string(c.Kind)), tm(c.IssuedAt), exp, initS, node, vh.ListOf(c.Controllers, coqVoter), promo, assign, task,
+	return vh.App("Cmd", str(string(c.Kind)), tm(c.IssuedAt), exp, initS, node, vh.ListOf(c.Controllers, coqVoter), promo, assign, task,
 		phase, commit, result, progress, health, hs, t.coqSB(normalizedSB(c.ScheduledBackup)), t.coqOps(normalizedOps(c.OpsMCP)))
 }
